@@ -997,6 +997,10 @@ def to_seq(I, v):
         return view_to_seq(I, VMapView(v, "keys"))
     if isinstance(v, VDictRec):
         return I.mk_list([VStr(k) for k in v.fields])
+    if isinstance(v, VRange) and v.step == 1:
+        lo, hi = to_int(v.lo), to_int(v.hi)
+        i = z3.Int("rg_i")
+        return VSeq(z3.Lambda([i], lo + i), z3.simplify(z3.If(hi > lo, hi - lo, 0)), TInt, "list")
     raise Unsupported("list() of %s" % type(v).__name__)
 
 
@@ -1973,6 +1977,8 @@ def _for_seq_inv(I, s, env, spec, n, item, seqv=None):
             except BreakSig:
                 return
             env.set(iname, VInt(i + 1))
+            if seqv is not None:
+                env.set(spec.get("iter", "_iter"), seqv)     # an inner for-loop rebinds the shared ghost name
             I.check_invariants(spec, env, name + "/inv-preserved")
             raise PathEnd("loop body end")
         I.exec_block(s.orelse, env)
